@@ -1,2 +1,39 @@
-(* PropsC14.v *)
-From Ucfg Require Import Base ParseInt Consts Field Tree PathOps Merge OTree F64 Conv Reify.
+(* PropsC14.v — C14: every failure is a typed error that names the offending setting.
+   Statements only; proofs are in ProofsReify.v.
+
+   PARTIAL.  In the model every failure is a value  Err reason path  with reason drawn from the
+   enumeration ereason (Base.v), so "typed, with a non-nil Reason" holds by construction and
+   the translator harness/consts.go ties the enumeration to the Err* variables of error.go.
+   Proved: a missing setting is reported with the full requested path (getters), at the
+   field where the walk stopped; a failed conversion keeps the reason of the conversion; a
+   list of the wrong length for a fixed-size array is EArraySizeMismatch.  NOT in the model:
+   the text of the message and the path and source inside it for Unpack failures (Reify.v
+   carries no paths).  That part is decided on the implementation by the correspondence run:
+   one fault is injected at every setting of valid (configuration, type) pairs and the
+   returned error must be a ucfg.Error whose message contains the dotted path of exactly
+   that setting and the source it was loaded from. *)
+From Ucfg Require Import Base ParseInt Consts Field Tree PathOps Merge OTree F64 Conv Reify ProofsReify.
+
+Theorem c14_missing_setting_names_full_path_partial : forall o rp name idx root,
+  get_path rp (opts_path_idx o name idx) root = Ok None ->
+  get_value o rp name idx root = Err EMissing (path_of rp (path_str (opts_path_idx o name idx) (p_sep o))).
+Proof. exact get_value_missing_names_path. Qed.
+Print Assumptions c14_missing_setting_names_full_path_partial.
+
+Theorem c14_walk_stops_at_missing_field_partial : forall rp f f2 rest pp cur,
+  get_field f pp cur = Ok None ->
+  get_path_go rp (f :: f2 :: rest) pp cur = Err EMissing (path_of rp (field_str f)).
+Proof. exact get_path_inner_missing. Qed.
+Print Assumptions c14_walk_stops_at_missing_field_partial.
+
+Theorem c14_conversion_failure_keeps_reason_partial : forall f o th vts val k r p,
+  is_nil (Some val) = false -> conv (r_ft o) (vo_dur (r_vo o)) k val = Err r p ->
+  reify_primitive (S f) (o, th, vts) val (TPrim k) = Err r p.
+Proof. exact reify_primitive_error_is_conv_error. Qed.
+Print Assumptions c14_conversion_failure_keeps_reason_partial.
+
+Theorem c14_wrong_list_length_partial : forall f fo n e val arr,
+  cast_arr val = Ok arr -> List.length arr <> n ->
+  reify_value (S f) fo (TArray n e) val = Err EArraySizeMismatch "".
+Proof. exact array_length_mismatch_is_error. Qed.
+Print Assumptions c14_wrong_list_length_partial.
